@@ -1291,6 +1291,27 @@ def _install(M):
     _elementwise("numpy.log", lambda x: V.ufun("log", x))
     _elementwise("numpy.sign", lambda x: ite(compare(">", x, 0), 1, ite(compare("<", x, 0), -1, 0)))
 
+    def _minmax(name, op):
+        def model(ex, a, k, l):
+            x, y = a[0], a[1]
+            pick = lambda u, v: ite(compare(op, u, v), u, v)      # noqa: E731
+            if isinstance(x, SymArr) and isinstance(y, SymArr):
+                if x.rank != y.rank:
+                    raise Unsupported("%s with broadcasting @%s" % (name, l))
+                sx, sy = x.snapshot(), y.snapshot()
+                return lam_array(x.shape, join_dtype(x.dtype, y.dtype), lambda xs: pick(sx.get(xs), sy.get(xs)))
+            if isinstance(x, SymArr) or isinstance(y, SymArr):
+                arr, sc, first = (x, y, True) if isinstance(x, SymArr) else (y, x, False)
+                if isinstance(sc, Cx) or arr.dtype == "cx":
+                    raise Unsupported("%s of complex values @%s" % (name, l))
+                sa = arr.snapshot()
+                return lam_array(arr.shape, "real" if arr.dtype != "int" or V.sort_of(sc) != "int" else "int",
+                                 lambda xs: pick(sa.get(xs), sc) if first else pick(sc, sa.get(xs)))
+            return pick(x, y)
+        M.table[name] = Builtin(name, model)
+    _minmax("numpy.minimum", "<=")
+    _minmax("numpy.maximum", ">=")
+
     @reg("numpy.array_equal")
     def _array_equal(ex, a, k, l):
         """numpy.array_equal(x, y): same shape and all cells equal (a quantified formula for symbolic sizes)"""
